@@ -73,8 +73,9 @@ CMP = {ast.Lt: "Scalar.lt", ast.LtE: "Scalar.le", ast.Gt: "Scalar.gt", ast.GtE: 
 class Tr:
     """Python expression over the single variable `data` -> Lean term (Scalar- or Bool-valued)."""
 
-    def __init__(self):
+    def __init__(self, float_lits=None):
         self.consts = []  # (python text, lean text) of every literal met, for the evidence file
+        self.float_lits = float_lits if float_lits is not None else []  # distinct magnitudes of float literals -> floatLit<i>
 
     def int_const(self, n):
         """integer constant expression -> (python value, lean Int term) or None"""
@@ -116,8 +117,11 @@ class Tr:
                 raise P.Untranslatable("non-finite float literal")
             fr = Fraction(fc)  # the exact value of the double
             self.consts.append((ast.unparse(n), str(fr)))
-            lit = f"{abs(fr.numerator)}" if fr.denominator == 1 else f"({abs(fr.numerator)} / {fr.denominator})"
-            return f"(pyF (-{lit}))" if fr < 0 else f"(pyF ({lit}))"
+            mag = abs(fr)
+            if mag not in self.float_lits:
+                self.float_lits.append(mag)
+            name = f"floatLit{self.float_lits.index(mag)}"
+            return f"(pyF (-{name}))" if fr < 0 else f"(pyF {name})"
         if isinstance(n, ast.Call) and isinstance(n.func, ast.Name) and not n.keywords:
             f = n.func.id
             if f in ("min", "max") and len(n.args) == 2:
@@ -169,6 +173,24 @@ class Tr:
         return f"(Scalar.truthy {self.s(n)})"
 
 
+def _calls_int(n) -> bool:
+    return any(isinstance(x, ast.Call) and isinstance(x.func, ast.Name) and x.func.id == "int" for x in ast.walk(n))
+
+
+def _int_guard(tr, test, ret) -> str:
+    """Conjunction of the conjuncts of `test` evaluated before the first one that calls int();
+    the whole test when only the return expression calls int(); `false` when int() is not called."""
+    conj = test.values if isinstance(test, ast.BoolOp) and isinstance(test.op, ast.And) else [test]
+    for k, c in enumerate(conj):
+        if _calls_int(c):
+            if k == 0:
+                return "true"  # evaluated unguarded
+            return "(" + " && ".join(Tr(tr.float_lits).b(x) for x in conj[:k]) + ")"
+    if _calls_int(ret):
+        return Tr(tr.float_lits).b(test)
+    return "false"
+
+
 CONTAINER_SHAPE = [
     ("mapping", "isinstance(data, collections.abc.Mapping)", "return {k: truncate_json_overflow(v) for k, v in data.items()}"),
     ("ndarray0d", "isinstance(data, np.ndarray) and data.ndim == 0", "return truncate_json_overflow(data.item())"),
@@ -218,13 +240,16 @@ def extract(ctx):
         "",
     ]
     facts = {"branches": [k for k, _, _ in CONTAINER_SHAPE], "numeric": []}
+    float_lits: list = []
+    defs = []
     for i, (test, bdy, line) in enumerate(numeric, 1):
         if len(bdy) != 1 or not isinstance(bdy[0], ast.Return) or bdy[0].value is None:
             raise P.Untranslatable(f"numeric branch at line {line}: body is not a single return")
-        tr = Tr()
+        tr = Tr(float_lits)
         cond = tr.b(test)
         ret = tr.s(bdy[0].value)
-        out += [
+        guard = _int_guard(tr, test, bdy[0].value)
+        defs += [
             f"/-- utils/__init__.py:{line}  `{ast.unparse(test)}` -/",
             f"def cond{i} (data : Scalar) : Bool :=",
             f"  {cond}",
@@ -233,8 +258,18 @@ def extract(ctx):
             f"def ret{i} (data : Scalar) : Scalar :=",
             f"  {ret}",
             "",
+            f"/-- what has been tested (left to right, `and` short-circuits) before branch {i} first evaluates `int(data)`;",
+            f"    `false` when the branch never calls `int` -/",
+            f"def intGuard{i} (data : Scalar) : Bool :=",
+            f"  {guard}",
+            "",
         ]
         facts["numeric"].append({"line": line, "test": ast.unparse(test), "return": ast.unparse(bdy[0].value), "lean_cond": cond, "lean_ret": ret, "literals": tr.consts})
+    for j, mag in enumerate(float_lits):
+        lit = f"{mag.numerator}" if mag.denominator == 1 else f"{mag.numerator} / {mag.denominator}"
+        out += [f"/-- exact value of a float literal of the source ({float(mag)!r}) -/", f"def floatLit{j} : Rat := {lit}", ""]
+    facts["float_literals"] = {f"floatLit{j}": repr(float(m)) for j, m in enumerate(float_lits)}
+    out += defs
     out += ["/-- the numeric part of the chain: first branch whose condition holds, else `return data` -/", "def truncLeaf (data : Scalar) : Scalar :="]
     if numeric:
         for i in range(1, len(numeric) + 1):
